@@ -80,6 +80,14 @@ def jobs(prop, tier):
             return [SE(c + "_edge", 2) for c in ent] + [SE("sync_sc_edge", 2, rate=0.05), SE("sync_3_edge", 3, rate=0.002)]
         return [SM(c) for c in ent] + [SE(c + "_edge", 2) for c in ent] + [SE("sync_sc_edge", 2, rate=0.5), SE("sync_3_edge", 3, rate=0.03),
                                                                          SE("sync_basic_edge", 2, rate=0.3)]
+    if prop == "C20":
+        def G(cfg, kinds, rate=1.0):
+            return dict(mode="edge", cfg=cfg, kind=kinds, n=2, rate=rate, tool="gatereplay", dump_module="OrdaTxLockDump.tla")
+        base = [G("txlock_2op_final", "1:op,2:op"), G("txlock_optx_final", "1:op,2:tx"), G("txlock_3_final", "1:op,2:tx,3:remote")]
+        free = dict(mode="go", cfg="free-running goroutines", kind="counter", tool="gatereplay", args=["-stress", "3000" if q else "200000", "-seed", "{seed}"])
+        if q:
+            return base + [free]
+        return [dict(mode="mc", cfg="txlock_big", kind="counter", module="OrdaTxLock.tla")] + base + [free]
     if prop == "C19":
         pe = dict(mode="edge", cfg="doc_patch_edge", kind="doc", n=2, dump_module="OrdaReplicaProbeDump.tla")
         sp = dict(mode="edge", cfg="snap_patch_edge", kind="doc", n=2, tool="snapreplay", dump_module="OrdaSnapDump.tla")
@@ -159,4 +167,37 @@ def assumptions(prop):
 
 
 def run_go_job(job, prop, tier, seed, scratch, ev, rec, ROOT, ENV, tlc, tlc_stats, Infra):
-    raise Infra("go jobs not wired yet")
+    """A harness command that drives the real code by itself (seeded) and prints one JSON summary line."""
+    cmd = [os.path.join(ROOT, "bin", job["tool"])] + [a.replace("{seed}", str(seed)) for a in job["args"]]
+    errf = os.path.join(scratch, "go.stderr")
+    with open(errf, "w") as ef:
+        p = subprocess.run(cmd, stdout=subprocess.PIPE, stderr=ef, text=True, timeout=job.get("timeout", 1200), env=dict(ENV, VERIF_STDERR="1"))
+    if p.returncode not in (0, 1):
+        pl = None
+        for line in open(errf, errors="replace"):
+            if line.startswith("panic:") or line.startswith("fatal error:"):
+                pl = line.strip()
+                break
+        if pl is None:
+            raise Infra("%s failed (rc=%d): %s" % (job["tool"], p.returncode, open(errf, errors="replace").read()[-600:]))
+        v = dict(property=prop, kind=job.get("kind", ""), n=0, why="the process died: " + pl, steps=[{"name": " ".join(cmd)}], tool=job["tool"],
+                 hash="go-" + str(abs(hash(pl)) % 10**8), confirm_cmd=" ".join(cmd) + " >/dev/null 2>&1; test $? -ne 0 && exit 1 || exit 0")
+        v["class"] = "crash"
+        ev["violations"].append(v)
+        ev["nviol"] += 1
+        return
+    try:
+        s = json.loads(p.stdout.strip().splitlines()[-1])
+    except Exception:
+        raise Infra("%s produced no summary: %s" % (job["tool"], p.stdout[-300:]))
+    rec.update({k: s.get(k) for k in ("behaviours", "completed", "nviol", "checked")})
+    ev["go_evaluations"] += s.get("behaviours", 0)
+    ev["go_distinct"] += s.get("distinct", 0)
+    for a, b in (s.get("checked") or {}).items():
+        ev["checked"][a] = ev["checked"].get(a, 0) + b
+    for v in s.get("violations") or []:
+        v["confirm_cmd"] = " ".join(cmd) + " >/dev/null 2>&1"
+        ev["violations"].append(v)
+    ev["nviol"] += s.get("nviol", 0)
+    if len(ev["samples"]) < 3 and s.get("samples"):
+        ev["samples"].extend(s["samples"][:1])
